@@ -17,6 +17,14 @@ CLAIMS = {
   text="Lean theorems about a hand-written model of Lexer span arithmetic (span_at_index/span_from/prev_span/current_span incl. re-lexed interpolated text), the codemap look-up, the Display renderer and logger routing over a mini statement language: every span obtainable from lexer calls, re-lexing to any depth, detached lexers, the empty span and merges lies inside the file on character boundaries and is located without panic (C19_span_in_bounds, C19_span_on_char_boundary, C19_location_valid, C19_reachable_span_located); the rendering starts with `Error: <message>` in both modes and its caret/padding arithmetic never underflows (C19_render_prefix, C19_render_total); each executed @debug/@warn is logged exactly once per execution in program order and nothing is logged under quiet (C19_debug_warn_trace, C19_warn_in_loop_each_iteration, C19_quiet_silent). Tie: exact-rendering tie (Display output = model render byte for byte on every located error, both modes), re-lexed-span tie, logger-trace tie on generated multi-file programs; direct location/renderer/fd-capture oracle on thousands of failing inputs.",
   note="That every error site in grass only uses such reachable spans of one file is by reading and by the correspondence (C19_full comment), not a theorem. Trace theorems are about the mini language; event columns, multi-line directives, @each/@while/@use in logging programs are outside. As-found witnesses kept for D12, D19, D23.",
   technique=TECH),
+ "C02": dict(
+  text="PARTIAL. Lean theorems about an executable model of the state that survives a compilation (thread-local interner, process-wide id counters) and a small language of how the compiler may use identifiers and ids: interner laws over all histories (C02_resolve_intern, _intern_idempotent, _keys_stable_history, _wf_reachable, _keyEq_iff_streq), non-interference of any program that uses identifiers only through key equality / resolve / insertion-ordered iteration from any two initial interner states (C02_noninterference_eq_resolve, _history_independent), invariance under the counters' initial values and under every interleaving of fetch_add request sequences with pairwise distinct ids (C02_freshId_offset_invariant, _interleaving_distinct, _schedule_invariant), and kernel-checked witnesses that key-ordered and hash-ordered iteration are NOT history/permutation independent (the model of the known leaks). Whole-compiler purity (C02_full) is not a theorem: it is tested metamorphically — same program after adversarial histories on one thread, on N concurrent threads and in fresh processes must give byte-identical output; the comparison predicate is evaluated by the Lean driver. Tie: the as-found model's predicted keywords()/error-name order after random histories equals grass's; a static list of BTreeMap/BTreeSet<Identifier>/HashMap iteration sites is regenerated from /repo on every run and diffed against the committed list.",
+  note="Real scheduler/memory-model behaviour, allocator state and evaluator container uses beyond the modelled observables are outside the model (named runtime behaviour the model cannot exhibit). D13 (five observables: keywords() order, `No arguments named` order, module-variables/functions order with and without @forward, which non-configurable variable a `with` error names) are known findings keyed by class tags computed only when the feature occurs and the difference is a pure reordering.",
+  technique="Lean 4 proof about a model of interner/id-counter state and an identifier-usage language; tie by predicted iteration order after generated histories + static container-site translator; metamorphic run (histories, threads, processes)"),
+ "C20": dict(
+  text="PARTIAL. Lean theorems about a model of crates/lib/src/main.rs: flags→Options mapping (C20_optionsOf_spec incl. both negated flags and load-path order, _optionsOf_default, _unnegated_variant_differs), command-line reading (C20_parse_render, _input_required), and the outcome function (C20_err_exit_nonzero_no_stdout, _ok_exit_zero_css_to_sink, _warnings_not_in_css, _unopenable_output, _input_kind_irrelevant). The mirror/exit/stream claims for the real binary are established by the tie: the binary is rebuilt from /repo and run on hand-written, generated and corpus inputs × flag combinations × {file, --stdin} × {stdout, new/existing/unopenable output file}; (exit, stdout, stderr, file) must equal outcome(flags, library result under optionsOf flags) byte for byte, where the library result comes from the in-process runner; the agreement predicate is evaluated by the Lean driver; the clap argument table of main.rs is compared statically with the table the model was written from.",
+  note="clap's own parsing beyond the documented flags and OS process behaviour (signals, closed pipes, permissions) are outside the model. Known finding C20-stdin-output (`grass --stdin out.css` treats the positional as INPUT). The output file is truncated before compiling (modelled as found; not contradicted by the property text).",
+  technique="Lean 4 proof about a model of main.rs; tie by running the freshly built binary against the in-process library with byte-exact comparison + static clap-table comparison"),
  "C09": dict(
   text="Lean theorems about an executable model of Value::eq / not_equals / SassMap / map literals / index(): == is reflexive (NaN-free), symmetric and transitive, != is its negation, map-get/has-key/remove/merge/literals and index() find an entry exactly when a key/element == the probe, maps keep first-insertion order and the distinct-key invariant — for every variant with canonical-unit comparison: on all values for the specified variant, on argument-list-free values with canonical convertible units for the code as it stands (the `_now_partial` theorems; the unguarded statement is refuted, C09_full_refuted). Tie: all ordered pairs of a ~120-value universe, all triples through grass's own == matrix, triples evaluated by grass, random map-operation sequences; the laws are evaluated by the Lean driver on grass's answers.",
   note="Exact rationals instead of f64 (universe kept away from bucket boundaries); complex units, calculations, function references outside the model. Known findings (same-unit vs canonical scale, arglist brackets/keywords, map-remove via not_equals) are modelled by switches and replayed every run.",
